@@ -178,6 +178,7 @@ func runC20(c *fw.Ctx, id string, rq c20Req) {
 	if rerr == nil {
 		outcome = fmt.Sprintf("ok(syn%d,sack%d)", synTraceHandles, sackTraceHandles)
 	}
+	env.monitors(id)
 	c.Count("requests", 1)
 	c.Nontrivial(fmt.Sprintf("%s/%s/%s/e2e%v/%s", rq.method, rq.cap, rq.fault, rq.e2e > 0, outcome))
 	viol := func(sig, msg string) {
